@@ -12,6 +12,7 @@ compares with the meaning of every returned operator on all interior Fock states
 from __future__ import annotations
 
 import copy
+import itertools
 import multiprocessing as mp
 import time
 import traceback
@@ -66,12 +67,27 @@ def models(rng, sid=None):
     if sid is not None:
         kind = FAMILIES[(sid - 1) % len(FAMILIES)]     # every family in every run
     w, al, g, h = rq(rng, 2, 5), rq(rng, 1, 2, (3, 5, 7)), rq(rng), rq(rng)
+    if sid == 0:
+        # the fixed witness of the known finding `negative_integer_resonance`: H_0 = N + N^2, H_1 = a + a^dagger
+        one_ = F(1)
+        modes = [("boson", "a")]
+        H0 = [[add(mul(scal(one_), num(0)), mul(scal(one_), pw(num(0), 2)))]]
+        H1 = [[mul(scal(one_), add(gen(0), gen(0, 1)))]]
+        return dict(kind="witness_negative_integer_resonance", modes=modes, r=1, block=[0], H={0: H0, 1: H1},
+                    rules=[dict(kind="tuple")], scalar=True, fd="default", band=2)
+    # every third session has COMPLEX couplings (g + i g', h + i h'): X + X^dagger with a complex prefactor
+    cplx = sid is not None and sid % 3 == 2
+    gi, hi = (rq(rng), rq(rng)) if cplx else (0, 0)
+
+    def herm(x):
+        return add(x, ("dag", x))
     if kind == "anharmonic":
         modes = [("boson", "a")]
         H0 = [[add(mul(scal(w), num(0)), mul(scal(al), pw(num(0), 2)))]]
-        terms = [mul(scal(g), add(gen(0), gen(0, 1)))]
+        terms = [herm(mul(scal(g, gi), gen(0))) if cplx else mul(scal(g), add(gen(0), gen(0, 1)))]
         if rng.random() < 0.5:
-            terms.append(mul(scal(h), add(pw(gen(0), 2), pw(gen(0, 1), 2))))
+            terms.append(herm(mul(scal(h, hi), pw(gen(0), 2))) if cplx
+                         else mul(scal(h), add(pw(gen(0), 2), pw(gen(0, 1), 2))))
         if rng.random() < 0.4:
             terms.append(mul(scal(h), pw(num(0), 2)))
         H1 = [[add(*terms) if len(terms) > 1 else terms[0]]]
@@ -81,7 +97,8 @@ def models(rng, sid=None):
         modes = [("boson", "a")]
         d = rq(rng, 1, 3, (3, 7))
         H0 = [[add(scal(d), mul(scal(w), num(0))), None], [None, add(scal(-d), mul(scal(w), num(0)))]]
-        up = add(mul(scal(g), gen(0)), mul(scal(h), gen(0, 1))) if rng.random() < 0.6 else mul(scal(g), gen(0))
+        up = (add(mul(scal(g, gi), gen(0)), mul(scal(h, hi), gen(0, 1))) if rng.random() < 0.6
+              else mul(scal(g, gi), gen(0)))
         lo = ("dag", up)
         dg = mul(scal(rq(rng)), add(gen(0), gen(0, 1))) if rng.random() < 0.4 else None
         H1 = [[dg, up], [lo, dg]]
@@ -93,7 +110,11 @@ def models(rng, sid=None):
         H0 = [[add(mul(scal(w), num(0)), mul(scal(d), num(1)))]]
         rot = add(mul(gen(0, 1), gen(1)), mul(gen(0), gen(1, 1)))
         crot = add(mul(gen(0), gen(1)), mul(gen(0, 1), gen(1, 1)))
-        H1 = [[add(mul(scal(g), rot), mul(scal(h), crot)) if rng.random() < 0.6 else mul(scal(g), rot)]]
+        if cplx:
+            rot_c, crot_c = herm(mul(scal(g, gi), gen(0, 1), gen(1))), herm(mul(scal(h, hi), gen(0), gen(1)))
+            H1 = [[add(rot_c, crot_c) if rng.random() < 0.6 else rot_c]]
+        else:
+            H1 = [[add(mul(scal(g), rot), mul(scal(h), crot)) if rng.random() < 0.6 else mul(scal(g), rot)]]
         return dict(kind=kind, modes=modes, r=1, block=[0], H={0: H0, 1: H1}, rules=[dict(kind="tuple")],
                     scalar=True, fd="default", band=1)
     if kind == "holstein":
@@ -110,20 +131,23 @@ def models(rng, sid=None):
         hop = add(mul(gen(0, 1), gen(1)), mul(gen(1, 1), gen(0)))
         pair = add(mul(gen(0), gen(1)), mul(gen(1, 1), gen(0, 1)))
         H1 = [[add(mul(scal(g), hop), mul(scal(h), pair))]]
+        if cplx:
+            H1 = [[add(herm(mul(scal(g, gi), gen(0, 1), gen(1))), herm(mul(scal(h, hi), gen(0), gen(1))))]]
         return dict(kind=kind, modes=modes, r=1, block=[0], H={0: H0, 1: H1}, rules=[dict(kind="tuple")],
                     scalar=True, fd="default", band=1)
     if kind == "ladder":
         modes = [("ladder", "l")]
         ng = rq(rng, 1, 2, (3, 5))
         H0 = [[add(mul(scal(w), pw(num(0), 2)), mul(scal(ng), num(0)))]]
-        H1 = [[mul(scal(g), add(gen(0), gen(0, 1)))]]
+        H1 = [[herm(mul(scal(g, gi), gen(0))) if cplx else mul(scal(g), add(gen(0), gen(0, 1)))]]
         return dict(kind=kind, modes=modes, r=1, block=[0], H={0: H0, 1: H1}, rules=[dict(kind="tuple")],
                     scalar=True, fd="default", band=1)
     if kind == "matrix_fd":
         modes = [("boson", "a")]
         d = rq(rng, 1, 3, (3, 7))
         H0 = [[mul(scal(w), num(0)), None], [None, add(scal(d), mul(scal(w), num(0)))]]
-        H1 = [[mul(scal(h), add(gen(0), gen(0, 1))), mul(scal(g), gen(0))], [mul(scal(g), gen(0, 1)), None]]
+        H1 = [[mul(scal(h), add(gen(0), gen(0, 1))), mul(scal(g, gi), gen(0))],
+              [("dag", mul(scal(g, gi), gen(0))), None]]
         return dict(kind=kind, modes=modes, r=2, block=[0, 0], H={0: H0, 1: H1}, rules=[dict(kind="tuple")],
                     scalar=False, fd="default", band=1)
     if kind == "equal_sector_matrix":
@@ -199,6 +223,8 @@ def models(rng, sid=None):
     modes = [("boson", "a")]
     H0 = [[add(mul(scal(w), num(0)), mul(scal(al), pw(num(0), 2)))]]
     H1 = [[add(mul(scal(g), add(gen(0), gen(0, 1))), mul(scal(h), add(pw(gen(0), 2), pw(gen(0, 1), 2))))]]
+    if cplx:
+        H1 = [[add(herm(mul(scal(g, gi), gen(0))), herm(mul(scal(h, hi), pw(gen(0), 2))))]]
     which = rng.choice([[1], [2], [1, 2]])
     return dict(kind=kind, modes=modes, r=1, block=[0], H={0: H0, 1: H1}, rules=[dict(kind="mask")],
                 scalar=True, fd="mask", mask_powers=which, band=2)
@@ -211,6 +237,42 @@ def sqrt_mod(x, p):
     return r
 
 
+def negative_resonance(H0, ops, modes, reach):
+    """The input class of the known finding: two DIFFERENT levels of H_0, continued as polynomials to integer
+    boson occupations of which at least one is NEGATIVE, coincide within `reach` quanta of each other.  An
+    energy denominator of the perturbation series then has a pole at an unphysical negative occupation, which
+    NumberOrderedForm products cancel against the falling factorial when the function is moved through
+    annihilators (known finding C08 pole_cancellation): wrong on the occupations the annihilators kill."""
+    import sympy
+    from pymablock.number_ordered_form import NumberOperator
+
+    nums = [NumberOperator(o) for o in ops]
+    ranges = []
+    for m in modes:
+        if m["kind"] in ("boson", "ladder"):
+            ranges.append(range(-reach, reach + 1))
+        else:
+            ranges.append(range(0, 2))
+    xs = sympy.symbols(f"x0:{len(nums)}")
+    diag = [sympy.expand(sympy.sympify(H0[i, i]).subs(dict(zip(nums, xs)))) for i in range(H0.shape[0])]
+    if not any(sympy.Poly(d, *xs).total_degree() > 1 for d in diag):
+        return None                                    # linear H_0: constant denominators
+    by_energy = {}
+    fns = [sympy.lambdify(xs, d, "sympy") for d in diag]
+    for i in range(H0.shape[0]):
+        for occ in itertools.product(*ranges):
+            e = sympy.nsimplify(fns[i](*[sympy.Integer(x) for x in occ]))
+            by_energy.setdefault(e, []).append((i, occ))
+    for e, lv in by_energy.items():
+        for x in lv:
+            if not any(m["kind"] == "boson" and n < 0 for m, n in zip(modes, x[1])):
+                continue
+            for y in lv:
+                if y != x and max(abs(a - b) for a, b in zip(x[1], y[1])) <= reach:
+                    return [[x[0], list(x[1])], [y[0], list(y[1])]]
+    return None
+
+
 def build_session(sid, seed, N):
     import sympy
     from pymablock import block_diagonalize
@@ -220,41 +282,62 @@ def build_session(sid, seed, N):
 
     rng = common.rng_for(seed, "C07", sid)
     p = common.P1
-    m = models(rng, sid)
-    margin = N * m["band"]
-    slack = m.get("slack", 3)        # interior occupations per unbounded mode beyond the margin
-    modes = []
-    for kind, name in m["modes"]:
-        if kind == "boson":
-            modes.append(dict(kind=kind, name=name, lo=0, hi=min(10, margin + slack)))
-        elif kind == "ladder":
-            modes.append(dict(kind=kind, name=name, lo=-(margin + min(slack, 2)), hi=margin + min(slack, 2)))
-        else:
-            modes.append(dict(kind=kind, name=name, lo=0, hi=1))
-    ops = core_nof.sympy_ops(modes)
-    states = core_nof.states_of(modes)
-    strides = []
-    for i in range(len(modes)):
-        st = 1
-        for mm in modes[i + 1:]:
-            st *= mm["hi"] - mm["lo"] + 1
-        strides.append(st)
-    r = m["r"]
-    # sympy input and trees
-    zero_tree = ["scal", [0, 0]]
-    Hs, Htrees = {}, []
-    for n in range(N + 1):
-        mat = m["H"].get(n)
-        sm = sympy.zeros(r, r)
-        tr = [[zero_tree for _ in range(r)] for _ in range(r)]
-        if mat is not None:
-            for i in range(r):
-                for j in range(r):
-                    if mat[i][j] is not None:
-                        sm[i, j] = core_nof.to_sympy(mat[i][j], ops, modes)
-                        tr[i][j] = core_nof.normalise(mat[i][j], modes, states, p)
-        Hs[n] = sm
-        Htrees.append(tr)
+    # three sessions in four stay OUTSIDE the input class of the known finding `negative_integer_resonance`
+    # (coefficients redrawn), so that the families with a non-linear H_0 keep their full sensitivity
+    for _attempt in range(40):
+        m = models(rng, sid)
+        margin = N * m["band"]
+        slack = m.get("slack", 3)        # interior occupations per unbounded mode beyond the margin
+        modes = []
+        for kind, name in m["modes"]:
+            if kind == "boson":
+                modes.append(dict(kind=kind, name=name, lo=0, hi=min(10, margin + slack)))
+            elif kind == "ladder":
+                modes.append(dict(kind=kind, name=name, lo=-(margin + min(slack, 2)), hi=margin + min(slack, 2)))
+            else:
+                modes.append(dict(kind=kind, name=name, lo=0, hi=1))
+        ops = core_nof.sympy_ops(modes)
+        states = core_nof.states_of(modes)
+        strides = []
+        for i in range(len(modes)):
+            st = 1
+            for mm in modes[i + 1:]:
+                st *= mm["hi"] - mm["lo"] + 1
+            strides.append(st)
+        r = m["r"]
+        # sympy input and trees
+        zero_tree = ["scal", [0, 0]]
+        Hs, Htrees = {}, []
+        for n in range(N + 1):
+            mat = m["H"].get(n)
+            sm = sympy.zeros(r, r)
+            tr = [[zero_tree for _ in range(r)] for _ in range(r)]
+            if mat is not None:
+                for i in range(r):
+                    for j in range(r):
+                        if mat[i][j] is not None:
+                            sm[i, j] = core_nof.to_sympy(mat[i][j], ops, modes)
+                            tr[i][j] = core_nof.normalise(mat[i][j], modes, states, p)
+            Hs[n] = sm
+            Htrees.append(tr)
+        resonance = negative_resonance(Hs[0], ops, modes, margin + 2)
+        if resonance is None or sid == 0 or sid % 4 == 3:
+            break
+    try:
+        return _build_rest(sid, N, m, modes, ops, states, strides, r, Hs, Htrees, p, margin, resonance)
+    except Exception as e:  # noqa: BLE001
+        if resonance is not None:
+            raise RuntimeError(f"[negative_integer_resonance {resonance}] {type(e).__name__}: {e}") from e
+        raise
+
+
+def _build_rest(sid, N, m, modes, ops, states, strides, r, Hs, Htrees, p, margin, resonance):
+    import sympy
+    from pymablock import block_diagonalize
+    from pymablock.number_ordered_form import NumberOrderedForm as NOF
+    from pymablock.series import one, zero
+    from sympy.physics.quantum import Dagger
+
     if m["scalar"]:
         H_in = [Hs[0][0, 0], Hs[1][0, 0]]
     else:
@@ -318,7 +401,8 @@ def build_session(sid, seed, N):
                states=[list(s) for s in states], strides=strides, r=r, block=list(m["block"]), k=1, N=N,
                H=Htrees, rules=m["rules"], same0=same0, elim=elim, sq=sq, margin=margin, out=out)
     meta = dict(model=m["kind"], modes=m["modes"], H0=str(Hs[0]), H1=str(Hs[1]), N=N, margin=margin,
-                fock_dim=len(states), mask_powers=m.get("mask_powers"))
+                fock_dim=len(states), mask_powers=m.get("mask_powers"), negative_integer_resonance=resonance,
+                complex_couplings=bool(sid % 3 == 2))
     return ses, meta
 
 
@@ -348,12 +432,12 @@ def run(pid, tier, seed, replay=None):
     quick = tier == "quick"
     N = 2 if quick else 3
     n = 28 if quick else 140
-    ids = list(range(1, n + 1)) if replay is None else [replay["sid"]]
+    ids = list(range(0, n + 1)) if replay is None else [replay["sid"]]     # sid 0: the known-finding witness
     if replay is not None:
         seed, N = replay["seed"], replay["N"]
     with mp.get_context("fork").Pool(16) as pool:
         items = pool.map(_job, [(i, seed, N) for i in ids], chunksize=1)
-    sessions, metas, violations, crashes, known = [], {}, [], [], []
+    sessions, metas, violations, crashes, known, known_sessions = [], {}, [], [], [], []
     kf = common.load_known_findings()
     for it in items:
         if it[0] == "ok":
@@ -362,7 +446,9 @@ def run(pid, tier, seed, replay=None):
         else:
             c = dict(sid=it[1], seed=seed, N=N, error=it[2][:800])
             k = next((f["what"] for f in kf.get("findings", []) if f.get("property") == "C07" and
-                      f.get("matcher") == "error_substring" and f["substring"] in c["error"]), None)
+                      ((f.get("matcher") == "error_substring" and f["substring"] in c["error"]) or
+                       (f.get("matcher") == "negative_integer_resonance" and
+                        "[negative_integer_resonance" in c["error"]))), None)
             if k:
                 known.append(k)
             else:
@@ -374,8 +460,14 @@ def run(pid, tier, seed, replay=None):
         res, done, fails, ill = validate(sessions)
         stats["states"], stats["transitions"] = res.distinct, res.generated
         illposed = len(ill)
+        kres = next((f["what"] for f in kf.get("findings", []) if f.get("property") == "C07" and
+                     f.get("matcher") == "negative_integer_resonance"), None)
         for s in sessions:
-            if fails.get(s["sid"]):
+            if fails.get(s["sid"]) and kres and metas[s["sid"]].get("negative_integer_resonance"):
+                known.append(kres)
+                known_sessions.append(dict(sid=s["sid"], resonance=metas[s["sid"]]["negative_integer_resonance"],
+                                           H0=metas[s["sid"]]["H0"], clauses=sorted(set(map(str, fails[s["sid"]])))[:4]))
+            elif fails.get(s["sid"]):
                 violations.append(dict(kind="matrix_elements", sid=s["sid"], seed=seed, N=N, meta=metas[s["sid"]],
                                        clauses=sorted(set(fails[s["sid"]]))))
     control = None
@@ -407,7 +499,9 @@ def run(pid, tier, seed, replay=None):
         evaluations=len(sessions), distinct_nontrivial=len({str(x) for x in metas.values()}),
         rule="case = (model family, random rational coefficients, order bound); distinct by the full Hamiltonian text",
         cases_per_model=per_model, skipped_ill_posed_on_window=illposed, crashes=len(crashes),
-        known_findings_hit=sorted(set(known)), negative_control=control, exhaustive=False)
+        known_findings_hit=sorted(set(known)), known_finding_sessions=known_sessions[:10],
+        sessions_in_known_finding_class=sum(1 for x in metas.values() if x.get("negative_integer_resonance")),
+        negative_control=control, exhaustive=False)
     common.write_evidence(pid, tier, seed, coverage, time.time() - t0, len(violations),
                           ["comparison on Fock states at least order x bandwidth away from the truncation edge; boson "
                            "cut-off <= 10 so that sqrt(n!) exists in GF(p) (2,3,5,7 are quadratic residues mod 46199)",
